@@ -34,6 +34,16 @@ Theorem C16_pause_unpause_roundtrip : forall c s cs au1 au2,
 Proof. exact pause_roundtrip. Qed.
 Print Assumptions C16_pause_unpause_roundtrip.
 
+(* the same at library level (pausable::pause / unpause without any authorisation wrapper, the entry
+   point under #[when_not_paused]) *)
+Theorem C16_pause_unpause_roundtrip_lib : forall c s cs au1 au2 x y,
+  knd c = KPausLib -> paused s = false ->
+  Forall (fun cl => pausable_op (fst cl) = true) cs ->
+  run c s ((Pause x, au1) :: cs ++ [(Unpause y, au2)]) = s /\
+  (forall cl, In cl cs -> step c (set_paused s true) cl = (set_paused s true, false)).
+Proof. exact pause_roundtrip_lib. Qed.
+Print Assumptions C16_pause_unpause_roundtrip_lib.
+
 (* Over every call sequence from deployment (any interleaving with every other entry point, any
    caller, any authorisation set): the successful pause/unpause events strictly alternate,
    starting with a pause.  [pause_events] lists true for a successful pause, false for a
@@ -120,16 +130,28 @@ Theorem C16_list_idempotent_immediate : forall c s u operator au s',
 Proof. exact list_call_immediate_idempotent. Qed.
 Print Assumptions C16_list_idempotent_immediate.
 
+(* The list entry points of the two examples are guarded by the "manager" role of AccessControl,
+   which can be granted / revoked / renounced mid-trace: in ANY state a list call succeeds only if
+   the operator holds the role at that moment and has authorised (a revoked manager is refused). *)
+Theorem C16_list_call_needs_manager : forall c s u operator au s',
+  knd c = KAllowEx \/ knd c = KBlockEx ->
+  (exec c s (AllowUser u operator, au) = Ok s' \/ exec c s (DisallowUser u operator, au) = Ok s' \/
+   exec c s (BlockUser u operator, au) = Ok s' \/ exec c s (UnblockUser u operator, au) = Ok s') ->
+  mgr s operator = true /\ has_auth au operator = true.
+Proof. exact list_call_needs_manager. Qed.
+Print Assumptions C16_list_call_needs_manager.
+
 (* Over every call sequence from deployment: each gate is exactly what the history of the
    SUCCESSFUL gate operations says - paused = the last successful pause/unpause was a pause;
    listed(x) = the last successful list change of x put it on the list (constructor state if none);
-   migrating = an upgrade succeeded since the last successful migration; nothing else moves a gate.
+   migrating = an upgrade succeeded since the last successful migration; manager(x) = the last
+   successful grant/revoke/renounce of the role for x was a grant; nothing else moves a gate.
    ([hist_run] replays [hist_upd] of Model/GatesSpec.v along the run.) *)
 Theorem C16_gates_follow_history : forall c cs, wf_cfg c = true ->
   let h := fst (hist_run c (hist0 c, init c) cs) in
   let s := run c (init c) cs in
   now s = h_now h /\ paused s = h_paused h /\ (forall x, listed c s x = h_listed h x) /\
-  migrating s = h_armed h.
+  migrating s = h_armed h /\ (forall x, mgr s x = h_mgr h x).
 Proof. exact gates_follow_history. Qed.
 Print Assumptions C16_gates_follow_history.
 
